@@ -592,6 +592,8 @@ class Gen(object):
             elif self.p["allow_virtual"] and srcs:
                 name = self.fname(used, r.choice(["total", "virt", "calc", None]))
                 vk = r.random()
+                if self.p.get("const_bias") and r.random() < 0.5:
+                    vk = 0.75  # profile: many compile-time-constant virtual fields (with conditions / [requires])
                 ints = [x for x in srcs if x.kind == "int" and len(x.path) == 1]
                 if vk < 0.2 and ints:
                     x = r.choice(ints)
